@@ -3,6 +3,8 @@ import numpy as np
 import kernels
 
 KERNEL_FILES = ["field/summator.pyx", "krige/krigesum.pyx", "variogram/estimator.pyx"]
+# a .so that differs from the Lean translation of its own source IS a failing input of this property
+DISAGREEMENT_IS_VIOLATION = True
 ASSUMPTIONS = ["Cython's lowering of prange (privatisation, inferred reductions) and OpenMP's DRF=>SC guarantee are trusted; "
                "the theorems quantify over every admissible (permutation) schedule of each prange loop"]
 
